@@ -385,6 +385,10 @@ class Parser:
                     # Negating a zero literal yields negative zero, a signed
                     # literal — fold it here so the sign survives regardless of
                     # context (a `Neg` under REAL loses it). See `as_real`.
+                    # Negating a negative zero (`-(-0.0)`) gives the positive one back.
+                    real = arg.as_real()
+                    if isinstance(real, Float) and real.s:
+                        return Decnum('0.0', loc)
                     return Decnum('-0.0', loc)
                 elif isinstance(arg, Integer):
                     return Integer(-arg.val, loc)
